@@ -5,11 +5,15 @@ partial_transpose as an index permutation (entry formula, involution, full
 transpose, complement), the re-indexing arithmetic of logneg_subsys /
 mutinf_subsys, the swap-to-the-smaller-side rule of entropy_subsys /
 tr_sqrt_subsys / schmidt_gap / partial_transpose_norm, the ket/operator
-dispatch table, and Kraus / measurement / purification / one-qubit Pauli
-identities over an arbitrary commutative ring.
+dispatch table, the |el - outcome| < tol grouping rule of projector / measure
+(one tolerance for the projector and for the normaliser), and Kraus /
+measurement / collapse / purification / one-qubit Pauli identities over an
+arbitrary commutative ring.
 Tie (H): partial_transpose entries on Gaussian-integer matrices, the (dims,
-sysa) the shortcut paths hand on (observed by rebinding module globals), and the
-branch each measure takes, compared inside Coq with the model.
+sysa) the shortcut paths hand on (observed by rebinding module globals), the
+branch each measure takes, and the (outcome, projected group, normaliser) of
+measure / the group of projector read off exact dyadic results, compared inside
+Coq with the model.
 Oracle (TESTS - the bulk of this property): every spectral identity (entropy,
 mutual information, negativity, concurrence, fidelity, trace distance, Schmidt
 gap, discord, purification, Kraus / measurement / dephasing maps) against plain
@@ -31,7 +35,10 @@ RULE = (
     "order incl. non-contiguous; random pure states and mixed states of rank 1..D with spectrum ratio <= 4; "
     "Gaussian-integer matrices for the exact partial-transpose correspondence; thresholds None / 2**13 / small for the "
     "route correspondence; pure states with known Schmidt spectrum (product, Bell pair, 3:1) where the requested side is "
-    ">= approx_thresh and the complement is tiny; sparse kets / operators with unequal dims relabelled by 3- and 4-cycles. Non-trivial: at least two subsystems and a proper non-empty subsystem set (a state that is "
+    ">= approx_thresh and the complement is tiny; sparse kets / operators with unequal dims relabelled by 3- and 4-cycles; "
+    "projector / measure with tol omitted / on the level grid / off it / tiny / huge, observables with 1..3 clusters of degenerate and near-degenerate "
+    "levels (spacings 6e-8..1e-3, levels exactly tol away included), supplied as (el, ev) tuples / lists in sorted or arbitrary order or as dense "
+    "(also block-diagonal, autoblock) matrices, outcomes requested (a level or a point between levels) or sampled, kets / their projectors / mixed states. Non-trivial: at least two subsystems and a proper non-empty subsystem set (a state that is "
     "not a product for entanglement measures)."
 )
 
@@ -46,6 +53,7 @@ HEADER = (
     "  | RApprox s z, RApprox s' z' => nl_eqb s s' && (z =? z')%Z | RExact s z, RExact s' z' => nl_eqb s s' && (z =? z')%Z | _, _ => false end.\n"
     "Definition lroute_eqb (a b : lroute) : bool := match a, b with LReject, LReject => true | LApprox, LApprox => true\n"
     "  | LPureBip s, LPureBip s' => nl_eqb s s' | LExact k d a, LExact k' d' a' => nl_eqb k k' && zl_eqb d d' && nl_eqb a a' | _, _ => false end.\n"
+    "Definition collapse_eqb (a b : Z * list nat * Z) : bool := match a, b with (o, g, t), (o', g', t') => (o =? o')%Z && nl_eqb g g' && (t =? t')%Z end.\n"
     "Definition ocalls_eqb (a b : option (list (list nat))) : bool := match a, b with None, None => true | Some x, Some y => nll_eqb x y | _, _ => false end.\n"
     "Definition branch_eqb (a b : branch) : bool := match a, b with\n"
     "  | BOverlap, BOverlap | BSqrtm, BSqrtm | BKetDistance, BKetDistance | BTraceNorm, BTraceNorm\n"
@@ -222,7 +230,7 @@ def correspondence_stage(ctx):
             ctx.broken_obligation(f"correspondence:{stream}_model_vs_impl", inf)
         if stream == "route" and seen[stream] <= 25:
             route_searcher(ctx, inf)
-    ctx.extra["correspondence_cases"] = {st: sum(1 for q in QUEUE if q[0] == st) for st in ("partial_transpose", "route", "dispatch")}
+    ctx.extra["correspondence_cases"] = {st: sum(1 for q in QUEUE if q[0] == st) for st in ("partial_transpose", "route", "dispatch", "measure_tol")}
     ctx.extra["correspondence_failed"] = len(failed)
 
 
@@ -1670,6 +1678,347 @@ def relabel_sparse_stream(ctx):
                        "entropy of the reduced relabelled sparse operator differs", desc)
 
 
+# ----------------------------------------------------------------------------
+# projector / measure with a caller-supplied tolerance and near-degenerate levels
+#
+# correspondence 4 (exact): eigenvalues on the grid k / 2**24, a tolerance on or off
+# the grid, eigenvectors with entries in {0, +-1, +-i} or {+-1/2, +-i/2}, states with
+# dyadic Gaussian-rational entries and norm / trace exactly 1: every float operation
+# of measure() up to the final division is exact, so (outcome, group of eigenvectors
+# projected on, normaliser) is READ OFF the returned state and compared inside Coq
+# with measure_model / measure_sampled / group.  The same cases go through a direct
+# oracle whose selection is recomputed here in integer arithmetic.
+
+GRID = 24        # eigenvalues are k / 2**GRID
+PSC = 128        # probabilities are multiples of 1 / PSC
+DEFAULT_TOL = 1e-12
+PHASES = [1, -1, 1j, -1j]
+H4 = np.array([[1, 1, 1, 1], [1, -1, 1, -1], [1, 1, -1, -1], [1, -1, -1, 1]], dtype=complex) / 2
+KET_AMPS = {2: [[2 + 2j, 2 + 2j]], 3: [[2 + 2j, 2, 2]], 4: [[2, 2, 2, 2], [3, 2, 1 + 1j, 1]], 5: [[3, 2, 1, 1, 1]],
+            6: [[2, 2, 2, 1, 1 + 1j, 1]]}
+
+
+def _tol_z(tol):
+    """the integer t with (x < t) == (x / 2**GRID < tol) for every integer x"""
+    from fractions import Fraction
+
+    f = Fraction(tol) * 2**GRID
+    return int(-((-f.numerator) // f.denominator))
+
+
+def _signed_perm(rng, d, phases=PHASES):
+    perm = list(range(d))
+    rng.shuffle(perm)
+    M = np.zeros((d, d), dtype=complex)
+    for j in range(d):
+        M[perm[j], j] = rng.choice(phases)
+    return M
+
+
+def _exact_eigvecs(rng, d):
+    if d == 4 and rng.random() < 0.5:
+        return _signed_perm(rng, 4) @ H4 @ _signed_perm(rng, 4, [1, -1]), "hadamard"
+    return _signed_perm(rng, d), "signed_permutation"
+
+
+def _exact_levels(rng, d):
+    """grid positions of d levels in 1..3 clusters of near-degenerate (or degenerate) levels"""
+    one = 2**GRID
+    ncl = rng.randint(1, min(3, d))
+    centres = rng.sample([-2 * one, -one, 0, one // 4, one, 2 * one, 3 * one], ncl)
+    u = rng.choice([1, 3, 16, 2**10, 2**14])  # spacing inside a cluster: 6e-8 .. 1e-3
+    ks = []
+    for i in range(d):
+        c = centres[i] if i < ncl else rng.choice(centres)
+        ks.append(c + u * rng.choice([0, 0, 1, 2, 3, -1, -2]))
+    if rng.random() < 0.6:
+        ks.sort()  # what eigh returns; an arbitrary order is allowed for a supplied decomposition
+    else:
+        rng.shuffle(ks)
+    return ks, u
+
+
+def _exact_tol(rng, u):
+    """None = the argument is omitted; else (float tolerance, description)"""
+    g = float(2**GRID)
+    c = rng.choice(["omitted", "grid", "grid", "grid", "float", "float", "wide"])
+    if c == "omitted":
+        return None
+    if c == "grid":
+        m = rng.choice([u, u + 1, 2 * u, 2 * u + 1, 3 * u, 3 * u + 1, 4 * u + 1])
+        return m / g
+    if c == "float":
+        return rng.choice([2.0**-44, 1e-12, 1e-9, 1e-7, 1e-5, 1e-3, 0.3])
+    return rng.choice([1.0, 100.0])
+
+
+def _exact_state(rng, d, V, kind):
+    """normalised exact state with a non-zero probability on every eigenvector, or None"""
+    for _ in range(20):
+        if kind in ("ket", "projector"):
+            amps = list(rng.choice(KET_AMPS[d]))
+            rng.shuffle(amps)
+            psi = np.array([a * rng.choice(PHASES) for a in amps], dtype=complex).reshape(d, 1) / 4
+            pj = np.abs(V.conj().T @ psi).reshape(-1) ** 2
+            p = psi if kind == "ket" else psi @ psi.conj().T
+        else:
+            b = np.array([rng.choice([0, 1, -1, 1j, -1j, 1 + 1j]) for _ in range(d)], dtype=complex).reshape(d, 1)
+            Dg = np.array([float(rng.choice([1, 2, 3])) for _ in range(d)])
+            M = b @ b.conj().T + np.diag(Dg)
+            M[0, 0] += 32 - np.trace(M).real
+            p = M / 32
+            pj = np.einsum("kj,kl,lj->j", V.conj(), p, V).real
+        pz = np.round(pj * PSC)
+        if np.all(pz > 0) and np.all(np.abs(pz - pj * PSC) < 1e-9) and int(pz.sum()) == PSC:
+            return p, [int(x) for x in pz]
+    return None
+
+
+def _tol_class(ks, klam, tol):
+    """input class of a (levels, outcome, tol) triple"""
+    tz = _tol_z(DEFAULT_TOL if tol is None else tol)
+    dz = _tol_z(DEFAULT_TOL)
+    sel = [abs(k - klam) < tz for k in ks]
+    seld = [abs(k - klam) < dz for k in ks]
+    if tol is None:
+        cls = "default_tol"
+    elif any(abs(k - klam) == tz and tz * 2.0**-GRID == tol for k in ks):
+        cls = "level_exactly_tol_away"
+    elif sel != seld:
+        cls = "near_degenerate_levels_grouped_by_tol"
+    else:
+        cls = "tol_selects_the_default_group"
+    return cls, sel, tz
+
+
+def _read_collapse(V, after, pz):
+    """(group of eigenvectors the returned state is supported on, normaliser * PSC) read off the result"""
+    after = np.asarray(after)
+    if after.shape[1] == 1:
+        w = np.abs(V.conj().T @ after).reshape(-1) ** 2
+    else:
+        w = np.einsum("kj,kl,lj->j", V.conj(), after, V).real
+    if not np.all(np.isfinite(w)) or w.sum() <= 0:
+        return None
+    grp = [j for j in range(len(pz)) if w[j] > 1e-9]
+    tot = sum(pz[j] for j in grp) / float(w.sum())
+    return grp, tot
+
+
+def measure_tol_stream(ctx):
+    import quimb as qu
+
+    rng = ctx.rng
+    cases, info = [], {}
+    cid = 0
+    g = float(2**GRID)
+    for it in range(ctx.n(150, 2500)):
+        d = rng.randint(2, 6)
+        ks, u = _exact_levels(rng, d)
+        V, vkind = _exact_eigvecs(rng, d)
+        el = np.array(ks, dtype=float) / g
+        tol = _exact_tol(rng, u)
+        kw = {} if tol is None else {"tol": tol}
+        kind = rng.choice(["ket", "operator", "projector"])
+        st = _exact_state(rng, d, V, kind)
+        if st is None:
+            continue
+        p, pz = st
+        sampled = rng.random() < 0.3
+        if sampled:
+            klam = None
+        elif rng.random() < 0.75:
+            klam = rng.choice(ks)
+        else:  # an outcome that is not itself a level (only if its group is not empty)
+            klam = rng.choice(ks) + rng.choice([1, -1, u, -u, 2 * u + 1])
+            if not any(abs(k - klam) < _tol_z(DEFAULT_TOL if tol is None else tol) for k in ks):
+                klam = rng.choice(ks)
+        A = (el, qu.qu(V)) if rng.random() < 0.7 else [el, qu.qu(V)]
+        pin = qu.qu(p) if rng.random() < 0.5 else p
+        desc = {"levels_times_2^24": ks, "eigenvectors": vkind, "V": tolist(V), "state_kind": kind, "state": tolist(p), "tol": tol,
+                "eigenvalue": None if sampled else klam / g, "sampled": sampled, "case_seed": [ctx.seed, it]}
+        if sampled:
+            sd = (ctx.seed * 7919 + it) % (2**31)
+            np.random.seed(sd)
+            desc["np_random_seed"] = sd
+            ok, res = call(ctx, "measure:prediagonalised:sampled", lambda: qu.measure(pin, A, **kw), desc)
+        else:
+            lam_arg = rng.choice([float(klam / g), np.float64(klam / g)])
+            ok, res = call(ctx, "measure:prediagonalised", lambda: qu.measure(pin, A, eigenvalue=lam_arg, **kw), desc)
+        if not ok:
+            continue
+        r, after = res
+        after = np.asarray(after)
+        kr = float(r) * g
+        if sampled:
+            # the sampled outcome must be one of the levels (all have non-zero probability)
+            if not expect(ctx, "measure:prediagonalised:sampled:outcome", kr in [float(k) for k in ks], f"sampled outcome {r} is not an eigenvalue", desc):
+                continue
+            klam = int(kr)
+            jlam = ks.index(klam)
+        else:
+            expect(ctx, "measure:prediagonalised:outcome", kr == float(klam), f"measure returned {r} for the requested eigenvalue {klam / g}", desc)
+        cls, sel, tz = _tol_class(ks, klam, tol)
+        desc["input_class"] = cls
+        ctx.count(("measure_tol", d, tuple(k - min(ks) for k in ks), klam - min(ks), tol, kind, sampled), cls != "default_tol" and sel.count(True) < d)
+        ctx.bump("measure_tol_" + cls)
+        # --- direct oracle (exact data: only the final division / square root rounds)
+        tot = sum(pz[j] for j in range(d) if sel[j]) / PSC
+        Pref = V[:, sel] @ V[:, sel].conj().T
+        want = Pref @ p / math.sqrt(tot) if kind == "ket" else Pref @ p @ Pref / tot
+        key = f"measure:prediagonalised:{cls}" + (":sampled" if sampled else "")
+        nrm = float(np.linalg.norm(after) ** 2) if kind == "ket" else float(np.trace(after).real)
+        expect(ctx, key + ":normalised", abs(nrm - 1.0) <= 1e-12, f"post-measurement state has norm^2 / trace {nrm!r}", desc)
+        expect(ctx, key + ":value", after.shape == want.shape and mclose(after, want, 1e-12),
+               "measure != P p / sqrt<p|P|p> resp. P rho P / tr(P rho) with P the projector on ALL levels within tol of the outcome", desc)
+        ok2, P = call(ctx, "projector:prediagonalised", lambda: np.asarray(qu.projector(A, klam / g, **kw)), desc)
+        if ok2:
+            expect(ctx, f"projector:prediagonalised:{cls}:value", P.shape == Pref.shape and np.array_equal(P, Pref),
+                   "projector != sum of |v><v| over the levels within tol of the eigenvalue", desc)
+        # --- correspondence with the Coq model
+        obs = _read_collapse(V, after, pz)
+        if obs is None or abs(obs[1] - round(obs[1])) > 1e-6:
+            continue  # not a state / normaliser off the probability grid: the oracle above has reported it
+        model = f"measure_sampled {zlist(ks)} {zlist(pz)} {natlit(jlam)} {zlit(tz)}" if sampled else f"measure_model {zlist(ks)} {zlist(pz)} {zlit(klam)} {zlit(tz)}"
+        cid += 1
+        info[cid] = {**desc, "observed": {"outcome_times_2^24": int(kr), "group": obs[0], "normaliser_times_128": int(round(obs[1]))}}
+        cases.append((cid, f"collapse_eqb ({model}) ({zlit(int(kr))}, {natlist(obs[0])}, {zlit(int(round(obs[1])))})"))
+        if ok2 and P.shape == (d, d):
+            dg = np.einsum("kj,kl,lj->j", V.conj(), P, V).real
+            cid += 1
+            info[cid] = {**desc, "observed": {"projector_group": [j for j in range(d) if dg[j] > 0.5]}}
+            cases.append((cid, f"nl_eqb (group {zlist(ks)} {zlit(klam)} {zlit(tz)}) {natlist([j for j in range(d) if dg[j] > 0.5])}"))
+        if cid <= 2:
+            ctx.sample({"stream": "measure_tol", **{k: v for k, v in desc.items() if k not in ("V", "state")}})
+    _queue("measure_tol", cases, info)
+
+
+def measure_numeric_stream(ctx):
+    """TEST, not a theorem: random unitary eigenvectors, near-degenerate float spectra, every tolerance;
+    reference = projector on the constructed levels within tol of the outcome, tolerance 1e-8."""
+    import quimb as qu
+
+    rng = ctx.rng
+    g = np.random.default_rng(ctx.seed + 2011)
+    for it in range(ctx.n(80, 1200)):
+        D = rng.randint(2, 9)
+        src = rng.choice(["prediagonalised", "dense_observable"])
+        ncl = rng.randint(1, min(3, D))
+        centres = rng.sample([-2.0, -1.0, -0.5, 0.0, 0.5, 1.0, 2.0, 3.0], ncl)
+        gap = rng.choice([0.0, 1e-10, 1e-8, 3e-7, 1e-5, 1e-4])
+        lam = np.array([(centres[i] if i < ncl else rng.choice(centres)) + gap * rng.choice([0, 0, 1, 2, -1]) for i in range(D)])
+        spread = 3 * gap
+        if src == "dense_observable":
+            # the observable is diagonalised inside quimb: only ask for groupings that are well conditioned,
+            # i.e. whole clusters (tol >= 8 * spread, clusters are >= 0.5 apart), or exactly degenerate levels
+            tol = rng.choice([None, 1e-9, 1e-6, 1e-4, 1e-2, 100.0])
+            if tol is None and gap > 0:
+                gap, spread = 0.0, 0.0
+                lam = np.array([centres[i] if i < ncl else rng.choice(centres) for i in range(D)])
+            elif tol is not None and tol < max(8 * spread, 1e-9):
+                tol = max(8 * spread, 1e-9)
+            lam = np.sort(lam)
+        else:
+            tol = rng.choice([None, 1e-13, 1e-12, 1e-11, 1e-9, 2e-7, 1e-6, 1e-4, 1e-2, 0.6, 100.0])
+            if rng.random() < 0.5:
+                lam = np.sort(lam)
+        kw = {} if tol is None else {"tol": tol}
+        teff = DEFAULT_TOL if tol is None else tol
+        U = rand_unitary(g, D)
+        blocks = src == "dense_observable" and D >= 3 and rng.random() < 0.4
+        if blocks:  # a block-diagonal observable in a permuted basis, for projector(autoblock=True)
+            k = rng.randint(1, D - 1)
+            U = np.zeros((D, D), dtype=complex)
+            U[:k, :k], U[k:, k:] = rand_unitary(g, k), rand_unitary(g, D - k)
+            U = U[g.permutation(D)][:, g.permutation(D)]
+        if src == "dense_observable":
+            Aobs = (U * lam) @ U.conj().T
+            A = qu.qu((Aobs + Aobs.conj().T) / 2)
+        else:
+            A = (lam.copy(), qu.qu(U))
+        psi = rand_ket(g, D)
+        rho = rand_rho(g, D, rng.choice([1, 2, D, rng.randint(1, D)]))
+        sampled = rng.random() < 0.3
+        target = float(rng.choice(list(lam)))
+        desc = {"source": src, "levels": lam.tolist(), "tol": tol, "eigenvalue": None if sampled else target, "sampled": sampled, "block_diagonal": bool(blocks), "case_seed": [ctx.seed, it]}
+
+        def sel_of(out):
+            d = np.abs(lam - out)
+            if src == "dense_observable":
+                d = np.where(d < 2 * spread + 1e-12, 0.0, d)  # a computed level of the outcome's cluster
+            return d < teff
+
+        def cls_of(out):
+            if tol is None:
+                return "default_tol"
+            return "near_degenerate_levels_grouped_by_tol" if not np.array_equal(sel_of(out), np.abs(lam - out) < DEFAULT_TOL) else "tol_selects_the_default_group"
+
+        cls = cls_of(target)
+        desc["input_class"] = "by sampled outcome" if sampled else cls
+        ctx.count(("measure_numeric", src, D, tuple(np.round(lam - lam.min(), 12)), tol, sampled), cls != "default_tol")
+        ctx.bump("measure_numeric_" + src)
+        if it < 1:
+            ctx.sample({"stream": "measure_numeric", **desc})
+        key = f"measure:{src}:{cls}"
+        if sampled:
+            sd = (ctx.seed * 104729 + it) % (2**31)
+            desc["np_random_seed"] = sd
+
+            def run_sampled():
+                out = []
+                for s in (psi, rho):
+                    np.random.seed(sd)
+                    out.append(qu.measure(s, A, **kw))
+                return out
+
+            ok, ms = call(ctx, f"measure:{src}:sampled", run_sampled, desc)
+            if not ok:
+                continue
+            for (r, after), s in zip(ms, (psi, rho)):
+                after = np.asarray(after)
+                r = float(np.real(r))
+                if not expect(ctx, f"measure:{src}:sampled:outcome", float(np.abs(lam - r).min()) < 1e-9, f"sampled outcome {r} is not an eigenvalue", desc):
+                    continue
+                out = r if src == "prediagonalised" else float(lam[np.argmin(np.abs(lam - r))])
+                sel = sel_of(out)
+                key = f"measure:{src}:{cls_of(out)}"
+                Pref = U[:, sel] @ U[:, sel].conj().T
+                if s is psi:
+                    pk = float((psi.conj().T @ Pref @ psi).item().real)
+                    expect(ctx, key + ":sampled:value", pk > 1e-12 and mclose(dop(after), dop(Pref @ psi) / pk, 1e-7), "sampled measure(ket) != P psi / sqrt<psi|P|psi> for the group of the outcome", {**desc, "outcome": r})
+                    expect(ctx, key + ":sampled:normalised", close(np.linalg.norm(after), 1.0), f"sampled post-measurement ket has norm {np.linalg.norm(after)}", {**desc, "outcome": r})
+                else:
+                    pr = float(np.trace(Pref @ rho).real)
+                    expect(ctx, key + ":sampled:value", pr > 1e-12 and mclose(after, Pref @ rho @ Pref / pr, 1e-7), "sampled measure(rho) != P rho P / tr(P rho) for the group of the outcome", {**desc, "outcome": r})
+                    expect(ctx, key + ":sampled:normalised", close(np.trace(after), 1.0), f"sampled post-measurement state has trace {np.trace(after)}", {**desc, "outcome": r})
+            continue
+        sel = sel_of(target)
+        Pref = U[:, sel] @ U[:, sel].conj().T
+        ok, P = call(ctx, f"projector:{src}", lambda: np.asarray(qu.projector(A, target, **kw)), desc)
+        if ok:
+            expect(ctx, f"projector:{src}:{cls}:value", mclose(P, Pref), "projector != sum of |v><v| over the levels within tol of the eigenvalue", desc)
+        if blocks:
+            ok, P = call(ctx, f"projector:{src}:autoblock", lambda: np.asarray(qu.projector(A, target, autoblock=True, **kw)), desc)
+            if ok:
+                expect(ctx, f"projector:{src}:{cls}:autoblock:value", mclose(P, Pref), "projector(autoblock=True) != sum of |v><v| over the levels within tol of the eigenvalue", desc)
+        pr = float(np.trace(Pref @ rho).real)
+        pk = float((psi.conj().T @ Pref @ psi).item().real)
+        if pr < 1e-3 or pk < 1e-3:
+            continue
+        ok, ms = call(ctx, key, lambda: (qu.measure(rho, A, eigenvalue=target, **kw), qu.measure(psi, A, eigenvalue=target, **kw),
+                                         qu.measure(dop(psi), A, eigenvalue=target, **kw)), desc)
+        if not ok:
+            continue
+        (e1, s1), (e2, s2), (e3, s3) = ms
+        s1, s2, s3 = np.asarray(s1), np.asarray(s2), np.asarray(s3)
+        expect(ctx, key + ":outcome", close(e1, target) and close(e2, target) and close(e3, target), "measure did not return the requested eigenvalue", desc)
+        expect(ctx, key + ":operator:value", mclose(s1, Pref @ rho @ Pref / pr), "measure(rho) != P rho P / tr(P rho) with P the projector on all levels within tol", desc)
+        expect(ctx, key + ":ket:value", mclose(dop(s2), dop(Pref @ psi) / pk), "measure(ket) != P psi / sqrt<psi|P|psi> with P the projector on all levels within tol", desc)
+        expect(ctx, key + ":ket_vs_projector", mclose(dop(s2), s3), "measure(ket) and measure(projector) collapse differently", desc)
+        expect(ctx, key + ":normalised", close(np.trace(s1), 1.0) and close(np.linalg.norm(s2), 1.0) and close(np.trace(s3), 1.0),
+               f"post-measurement state not normalised: tr = {np.trace(s1).real}, |psi|^2 = {np.linalg.norm(s2) ** 2}", desc)
+
+
 def route_searcher(ctx, inf):
     """direct oracle on a route case whose correspondence failed: the same call, with the same
     approx_thresh whenever the smaller side is below it (exactness is then required), on states
@@ -1732,7 +2081,8 @@ def timed(ctx, fn):
     ctx.extra.setdefault("stage_wall_s", {})[fn.__name__] = round(time.time() - t, 1)
 
 
-STAGES = [corpus_stage, pt_stream, route_stream, dispatch_stream, correspondence_stage, entropy_stream, negativity_stream, two_qubit_stream, distance_stream, maps_stream, decomp_stream, lazy_stream, threshold_stream, relabel_sparse_stream]
+STAGES = [corpus_stage, pt_stream, route_stream, dispatch_stream, measure_tol_stream, correspondence_stage, entropy_stream, negativity_stream, two_qubit_stream, distance_stream, maps_stream,
+          measure_numeric_stream, decomp_stream, lazy_stream, threshold_stream, relabel_sparse_stream]
 
 
 def run(ctx):
